@@ -77,23 +77,15 @@ func VerifC09Types() {
 		want += 1 + c.stars
 	}
 	verifAssert(len(types) == want, "number of typed operands differs from the number of operands the format consumes (each * counts)")
-	verifAssert(len(format) == len(s), "rewriting changed the length of the format")
-	if len(format) != len(s) {
-		return
-	}
-	// the rewritten format differs from the input only at verb bytes and only by i,u->d  c->s  a->x  A->X
-	isVerb := make([]bool, len(s))
+	// the rewritten format is the input with the verb table i,u->d c->s a->x A->X applied and C's default
+	// precision made explicit for %g / %G (Go's %g without a precision prints shortest-repr digits)
+	wantFmt := ""
+	prev := 0
+	unsafeSign := false
 	for _, c := range convs {
-		isVerb[c.verbPos] = true
-	}
-	ok := true
-	for i := 0; i < len(s); i++ {
-		if !isVerb[i] {
-			ok = ok && format[i] == s[i]
-			continue
-		}
-		w := s[i]
-		switch s[i] {
+		wantFmt += s[prev:c.verbPos]
+		w := c.verb
+		switch c.verb {
 		case 'i', 'u':
 			w = 'd'
 		case 'c':
@@ -102,23 +94,21 @@ func VerifC09Types() {
 			w = 'x'
 		case 'A':
 			w = 'X'
+		case 'g', 'G':
+			if !c.hasPrec {
+				wantFmt += ".6"
+			}
 		}
-		ok = ok && format[i] == w
-	}
-	verifAssert(ok, "the rewritten format differs from the input other than by the verb table i,u->d c->s a->x A->X")
-	// Go == C safe set: value-independent divergences of Go's fmt from C printf must not reach fmt.Sprintf
-	unsafeG, unsafeSign := false, false
-	for _, c := range convs {
-		if (c.verb == 'g' || c.verb == 'G') && !c.hasPrec {
-			unsafeG = true
-		}
+		wantFmt += string([]byte{w})
+		prev = c.verbPos + 1
 		if c.plusSpace && (c.verb == 'o' || c.verb == 'x' || c.verb == 'X' || c.verb == 'u') {
 			unsafeSign = true
 		}
 	}
-	verifKnown("C09-g-without-precision", unsafeG)
+	wantFmt += s[prev:]
 	verifKnown("C09-sign-flag-on-unsigned", unsafeSign)
-	verifAssert(!unsafeG && !unsafeSign, "a conversion whose Go meaning differs from C's reaches fmt.Sprintf unchanged (%g without precision prints shortest digits; + or space on o x X u prints a sign)")
+	verifAssert(!unsafeSign, "a + or space flag on an unsigned conversion (o x X u) reaches fmt.Sprintf, which prints a sign where C printf does not")
+	verifAssert(format == wantFmt, "the rewritten format is not the input with the verb table (i,u->d c->s a->x A->X) and the default %g precision applied")
 }
 
 // operand kinds: 0 number (any float64), 1 string, 2 numeric input string, 3 unset
